@@ -19,11 +19,13 @@ def main():
     from pysmt.solvers.portfolio import Portfolio
     env = get_env()
     names = []
-    for i, b in enumerate(behs):
+    for i, bs in enumerate(behs):
+        b, _, seed = bs.partition("@")
         name = "member%d_%s" % (i + 1, b)
         env.factory.add_generic_solver(name, [sys.executable, os.path.join(HERE, "smt_member.py"), b,
                                               os.path.join(markerdir, "m%d" % (i + 1))], [QF_BOOL])
-        names.append(name)
+        # "beh@seed": the member is listed as a (name, options) pair with its own random seed
+        names.append((name, {"random_seed": int(seed)}) if seed else name)
     p, q = Symbol("p"), Symbol("q")
     asserts = [Or(p, q), p]
     from pysmt.shortcuts import Not
